@@ -2,11 +2,12 @@
 from __future__ import annotations
 
 import math
+import os
 from fractions import Fraction
 
 from hypothesis import strategies as st
 
-from vlib.pio import P, quiet, snap_tg, snap_tier
+from vlib.pio import P, quiet, snap_tg, snap_tier, tmpdir
 from vlib.run import Check, Violation, note_accept
 from props.c16 import to_bytes, from_bytes, nearest
 
@@ -24,6 +25,8 @@ RULE = (
     "that is not all-zero / the splice returned."
 )
 ASSUMPTIONS = [
+    "targets outside [0, duration] are only given to the in-memory Wav: the file-backed QueryWav hands them to wave.setpos, which "
+    "refuses them with wave.Error (a rejection, not a wrong result); inside the recording both readers are searched",
     "completeness of the crossing search is not asserted (the statement constrains returned values only)",
     "audioSplice with alignToZeroCrossing=True: any praatio error is a rejection (crossing search / boundary shift are documented as unchecked)",
     "audioSplice without alignment: the only accepted rejection is a praatio error when an interval of the target tier straddles the insertion point",
@@ -81,12 +84,29 @@ def run_zero_crossing(case):
     k, f = case["target"]
     t = min(max((k % (n + 1) + f) / rate, 0.0), n / rate)
     on_grid = f == 0
-    step = case["step_samples"] / rate
     cl = set()
-    what = f"findNearestZeroCrossing({t!r}, timeStep={step!r}) on {n} samples at {rate} Hz"
-    frames_before = wav.frames
+    if case.get("outside") == "before" and k % (n + 1) > 0:
+        t = -(k % (n + 1) + f) / rate  # arbitrary target times: termination and range still hold
+        cl.add("target_before_0")
+    elif case.get("outside") == "after":
+        t = (n + k % (n + 1) + f) / rate
+        cl.add("target_after_end")
+    if case.get("backend") == "query" and not (cl & {"target_before_0", "target_after_end"}):
+        # the same search on the file-backed reader
+        from praatio import audio
+        fn = os.path.join(tmpdir(), "c18q.wav")
+        wav.save(fn)
+        wav = audio.QueryWav(fn)
+        cl.add("query_wav")
+    step = case["step_samples"] / rate
+    what = f"findNearestZeroCrossing({t!r}, timeStep={step!r}) on {n} samples at {rate} Hz" + (" (QueryWav)" if "query_wav" in cl else "")
+    frames_before = getattr(wav, "frames", None)
     try:
-        r = wav.findNearestZeroCrossing(t, step)
+        try:
+            r = wav.findNearestZeroCrossing(t, step)
+        finally:
+            if "query_wav" in cl:
+                wav.audiofile.close()
     except p.errors.ArgumentError:
         if step * rate < 2:
             note_accept("ArgumentError(step < 2 samples)")
@@ -97,7 +117,7 @@ def run_zero_crossing(case):
         return {"classes": ["not_found"], "nontrivial": False}
     if step * rate < 2:
         raise Violation("small-step-accepted", f"{what}: a step of {step * rate} samples was accepted")
-    if wav.frames != frames_before:
+    if getattr(wav, "frames", None) != frames_before:
         raise Violation("receiver-mutated", what)
     idx = check_crossing_value(r, samples, rate, on_grid, what)
     if idx < n and samples[min(idx, n - 1)] == 0:
@@ -345,7 +365,9 @@ def zc_cases(draw):
     width, rate, s, kind = draw(recording())
     target = [draw(st.integers(0, 400)), draw(st.sampled_from([0, 0, 0, 0.25, -0.4, 0.5]))]
     step = draw(st.sampled_from([2, 3, 4, 16, 2.5, 3.3, 7.75, 88.2, 1.5, 1, 0.5]))
-    return {"width": width, "rate": rate, "samples": s, "kind": kind, "target": target, "step_samples": step}
+    return {"width": width, "rate": rate, "samples": s, "kind": kind, "target": target, "step_samples": step,
+            "outside": draw(st.sampled_from([None, None, None, None, "before", "after"])),
+            "backend": draw(st.sampled_from(["wav", "wav", "query"]))}
 
 
 @st.composite
